@@ -17,7 +17,8 @@ LEVEL_TEXT = ("Every one of the 16 operation variants of both APIs is called wit
               "unbounded argument space: no proof of absence.")
 RULE = ("case = (operation kind, accepted arguments, device id, key, session id, timestamp, login-reply length), one "
         "connection per case; plus histories of 2..10 operations on one connection per API type. Non-trivial = a frame other than the login frame; distinct by (kind, frame length, signature bytes)."
-        ' Also: host zones other than UTC, names that are not NFC-stable or start with U+FEFF, and 32-byte names crafted so that their last four bytes equal the signature of the frame so far; slow-device: every operation x every step answered 6 s .. 25 h late while the wall clock keeps running with the loop clock (both harness-owned), followed by another operation - every byte string written meanwhile is checked.')
+        ' Also: host zones other than UTC, names that are not NFC-stable or start with U+FEFF, and 32-byte names crafted so that their last four bytes equal the signature of the frame so far; slow-device: every operation x every step answered 6 s .. 25 h late while the wall clock keeps running with the loop clock (both harness-owned), followed by another operation - every byte string written meanwhile is checked.'
+        ' odd-replies: after a good login reply a LATER reply of the exchange is short (1..91 bytes of the right reply), garbage, NUL bytes, the request echoed back or missing; every frame the client still writes is judged (non-trivial = the client wrote a frame after the odd reply).')
 ASSUMPTIONS = [
     "frame boundaries = lengths of the client's StreamWriter.write calls (harness-side tap), content from the socket",
     "login replies of 12..1024 bytes carrying the session id at offset 8 (the statement's precondition)",
